@@ -115,15 +115,6 @@ def stepLine (st : DSt) (toks : List String) : DSt :=
       | _, _ => bad st s!"bad cb {l}")
   | _ => bad st s!"bad line {toks}"
 
-/-- index of the first observation the judge rejects (diagnostics only) -/
-def firstBad [FloatOracle] (decls : List (List Var)) : JS → List Obs → Nat → Option (Nat × JS)
-  | _, [], _ => none
-  | js, o :: rest, i =>
-    if evInScope js o.ev then
-      if outOk o && valsOk decls (advance js o.ev) o.vals && cbsOk decls (advance js o.ev) o.cbs then firstBad decls (advance js o.ev) rest (i + 1)
-      else some (i, advance js o.ev)
-    else none
-
 def main : IO UInt32 := do
   let lines ← readLines (← IO.getStdin)
   let out ← IO.getStdout
@@ -142,7 +133,7 @@ def main : IO UInt32 := do
         let j := @C11.ok inst st.vars obs && st.parseOk
         let mut notes := st.notes.take 3
         if !j then
-          match @firstBad inst st.vars {} obs 0 with
+          match @firstBadFrom inst st.vars {} obs 0 with
           | some (i, js) =>
             let o := obs.getD i ⟨.start 0 0, .nothing, [], []⟩
             notes := notes ++ [s!"judge e{i} out={fmtOut o.out} outOk={outOk o} cbs={o.cbs} vals={o.vals.map fun l => fmtVarObs (l.map fun p => (p.1, p.2, none))} granted={js.granted.map fun p => (p.1, ofS p.2)} seen={js.seen.length}"]
